@@ -114,6 +114,8 @@ pub struct Features {
     /// stream/map folds whose `next` is not unconditionally executed (seq / xor / no-next shapes)
     pub seq_stream_fold: usize,
     pub unbounded_rec: usize,
+    /// `ap` of a canon inside a fold replaced by a literal (value-doubling scripts, K10 of C01)
+    pub growth_excluded: usize,
     /// stream-like folds nested inside a stream-like fold
     pub nested_stream_fold: usize,
     /// streams filled by >= 3 aps in one run (one generation)
@@ -365,6 +367,21 @@ impl<'a> Elab<'a> {
         true
     }
 
+    /// Inside a fold, `ap` of a canon (or of anything read from one) into a stream, map or scalar
+    /// is how a script doubles a value per iteration: `(fold .. (seq (canon P $s #c) (ap #c $s)) ..)`
+    /// needs memory exponential in the number of iterations within one run (known finding K10 of
+    /// C01, searched by C01's script-growth mode in an isolated process).  The history checks run
+    /// the interpreter in process, so their scripts copy a literal there instead.
+    fn no_growth(&mut self, src: Arg, env: &Env) -> Arg {
+        match &src {
+            Arg::Var { name, .. } if name.starts_with('#') && !env.iters.is_empty() => {
+                self.feat.growth_excluded += 1;
+                Arg::Str("c".into())
+            }
+            _ => src,
+        }
+    }
+
     fn iter_args(&self, env: &Env) -> Vec<(Arg, Shape)> {
         env.iters.iter().map(|(n, s, _, _)| (Arg::var(n), s.clone())).collect()
     }
@@ -457,6 +474,8 @@ impl<'a> Elab<'a> {
                     Arg::Var { ref name, ref lens, .. } if name.starts_with("#%") && lens.is_empty() => Arg::Str("m".into()),
                     s => s,
                 };
+                let src = self.no_growth(src, env);
+                let sh = if matches!(src, Arg::Str(_)) { Shape::Str } else { sh };
                 let v = self.fresh("v");
                 env.scalars.push((v.clone(), sh));
                 I::Ap { src, dst: v }
@@ -468,6 +487,8 @@ impl<'a> Elab<'a> {
                     Arg::Var { ref name, ref lens, .. } if name.starts_with("#%") && lens.is_empty() => Arg::Str("m".into()),
                     s => s,
                 };
+                let src = self.no_growth(src, env);
+                let sh = if matches!(src, Arg::Str(_)) { Shape::Str } else { sh };
                 let app = self.appendable(env);
                 let name = if !app.is_empty() && pick(l.out, 3) != 0 {
                     app[pick(l.x, app.len())].0.clone()
@@ -486,6 +507,8 @@ impl<'a> Elab<'a> {
                     Arg::Var { ref name, ref lens, .. } if name.starts_with("#%") && lens.is_empty() => Arg::Str("m".into()),
                     s => s,
                 };
+                let val = self.no_growth(val, env);
+                let sh = if matches!(val, Arg::Str(_)) { Shape::Str } else { sh };
                 let key = match pick(l.ret, 4) {
                     0 => Arg::Num((l.x % 3) as i64),
                     1 => {
